@@ -49,7 +49,7 @@ func runC14live(c string) string {
 	parts := strings.Split(c, ";")
 	h := fields(parts[0])
 	machinep, maxp, load := atoi(h[1]), atoi(h[3]), atoi(h[5])
-	mgr := exec.VerifNewManager(machinep, maxp, float64(load)/100)
+	mgr := exec.VerifNewManager(machinep, maxp, float64(load)/100, strings.Contains(c, "kill "))
 	defer mgr.Close()
 	var (
 		mu      sync.Mutex
@@ -172,6 +172,25 @@ func runC14live(c string) string {
 				mu.Lock()
 				delete(cancels, rid)
 				mu.Unlock()
+			}
+		case "kill":
+			// kill the machine with the given name (as assigned by first grant) and wait until the manager has noticed
+			mu.Lock()
+			var victim *exec.VerifSliceMachine
+			for m, n := range names {
+				if n == op[1] {
+					victim = m
+				}
+			}
+			mu.Unlock()
+			if victim != nil {
+				mgr.Sys.Kill(victim.Machine)
+				for i := 0; i < 600; i++ {
+					if _, _, _, h := exec.VerifMachInfo(victim); h == 2 {
+						break
+					}
+					time.Sleep(10 * time.Millisecond)
+				}
 			}
 		case "done":
 			rid := atoi(op[1])
